@@ -109,14 +109,18 @@ CHECKS["C01"] = {
     "technique": "Coq proofs per value kind + differential correspondence at JSON-tree level + strict round-trip oracle",
 }
 CHECKS["C10"] = {
-    "text": "Proof (Coq): the generated tables that drive the writers agree with the hand-written W3C tables (kinds, names, "
+    "text": "Proof (Coq): (1) the generated tables that drive the writers agree with the hand-written W3C tables (kinds, names, "
             "formal arguments in order, attribute keys, record keys, time arguments, subtype names) — a renamed constant breaks "
-            "the build. The independent readers are Gallina definitions that share no code with the model of the library's "
-            "serializers; the extracted JSON reader is run on the implementation's real output for every document and two "
-            "option sets and must recover the strict content. End-to-end theorem stated, not yet proved; PROV-XML half: see "
-            "DESIGN §10 (partial).",
+            "the build; (2) end to end at value level: what the independent readers JsonSpec.read_literal and XmlSpec.read_value / "
+            "read_child recover from what the model of the writers emits is the strict content of the value, for every value kind "
+            "(strings, ints, booleans, floats under the float-oracle law, datetimes via the proved iso round trip, URIs, qualified "
+            "names, language-tagged and foreign-typed literals, references and times of formal arguments), both values of "
+            "force_types. The readers are Gallina definitions sharing no code with the model of the library's serializers; "
+            "extracted, they are run on the implementation's real PROV-JSON (2 option sets) and PROV-XML (force_types off/on) for "
+            "every document and must recover the strict content. Container-level end-to-end theorem stated, not proved (partial).",
     "design_ref": "DESIGN.md §5 C10, §10",
-    "technique": "Coq table-agreement proofs + extracted independent spec reader executed on the implementation's output",
+    "technique": "Coq proofs (table agreement; value-level writer-model∘spec-reader = content) + extracted independent spec readers "
+                 "executed on the implementation's output",
 }
 CHECKS["C11"] = {
     "text": "Proof (Coq): for every input tree the decoder accepts, the resulting document is well formed (no hypothesis on "
